@@ -17,13 +17,34 @@ func Eval(sd *SchemaDesc, d *Doc, w *World) (result interface{}, err error) {
 		}
 	}()
 	e := &evaluator{sd: sd, d: d, w: w}
-	return e.object("Query", nil, []*SelSet{d.Root}), nil
+	return e.object("Query", nil, []*SelSet{d.Root}, nil), nil
+}
+
+// Resolution is one field resolution a sequential evaluation performs.
+type Resolution struct {
+	Type  string
+	ID    int64
+	Field string
+	Path  []string // response path: aliases and list indices, outermost first
+}
+
+// EvalTrace is Eval that also reports every field resolution with its
+// response path.
+func EvalTrace(sd *SchemaDesc, d *Doc, w *World, on func(Resolution)) (result interface{}, err error) {
+	defer func() {
+		if p := recover(); p != nil {
+			err = fmt.Errorf("reference evaluator: %v", p)
+		}
+	}()
+	e := &evaluator{sd: sd, d: d, w: w, on: on}
+	return e.object("Query", nil, []*SelSet{d.Root}, nil), nil
 }
 
 type evaluator struct {
 	sd *SchemaDesc
 	d  *Doc
 	w  *World
+	on func(Resolution)
 }
 
 type group struct {
@@ -70,7 +91,7 @@ func (e *evaluator) collect(typ string, sets []*SelSet) []*group {
 	return order
 }
 
-func (e *evaluator) object(typ string, src interface{}, sets []*SelSet) interface{} {
+func (e *evaluator) object(typ string, src interface{}, sets []*SelSet, path []string) interface{} {
 	t := e.sd.Types[typ]
 	out := map[string]interface{}{}
 	for _, g := range e.collect(typ, sets) {
@@ -89,6 +110,14 @@ func (e *evaluator) object(typ string, src interface{}, sets []*SelSet) interfac
 				raw[a.Name] = v
 			}
 		}
+		fpath := append(append([]string{}, path...), g.key)
+		if e.on != nil && !fd.StructField {
+			var id int64
+			if fd.SrcID != nil && src != nil {
+				id = fd.SrcID(src)
+			}
+			e.on(Resolution{Type: typ, ID: id, Field: fd.Name, Path: fpath})
+		}
 		v, err := fd.Call(e.w, src, raw)
 		if err != nil {
 			panic(err)
@@ -99,7 +128,7 @@ func (e *evaluator) object(typ string, src interface{}, sets []*SelSet) interfac
 				subs = append(subs, x.Sub)
 			}
 		}
-		out[g.key] = e.complete(v, fd.Ret, subs)
+		out[g.key] = e.complete(v, fd.Ret, subs, fpath)
 	}
 	if t.KeyField != "" {
 		v, _ := t.Fields[t.KeyField].Call(e.w, src, nil)
@@ -120,7 +149,7 @@ func isNil(v interface{}) bool {
 	return false
 }
 
-func (e *evaluator) complete(v interface{}, tr TypeRef, subs []*SelSet) interface{} {
+func (e *evaluator) complete(v interface{}, tr TypeRef, subs []*SelSet, path []string) interface{} {
 	switch tr.Kind {
 	case KList:
 		out := []interface{}{}
@@ -129,7 +158,7 @@ func (e *evaluator) complete(v interface{}, tr TypeRef, subs []*SelSet) interfac
 		}
 		rv := reflect.ValueOf(v)
 		for i := 0; i < rv.Len(); i++ {
-			out = append(out, e.complete(rv.Index(i).Interface(), *tr.Elem, subs))
+			out = append(out, e.complete(rv.Index(i).Interface(), *tr.Elem, subs, append(append([]string{}, path...), fmt.Sprint(i))))
 		}
 		return out
 	case KScalar:
@@ -140,7 +169,7 @@ func (e *evaluator) complete(v interface{}, tr TypeRef, subs []*SelSet) interfac
 		if isNil(v) {
 			return nil
 		}
-		return e.object(tr.Name, v, subs)
+		return e.object(tr.Name, v, subs, path)
 	case KUnion:
 		th, _ := v.(*Thing)
 		if th == nil {
@@ -148,9 +177,9 @@ func (e *evaluator) complete(v interface{}, tr TypeRef, subs []*SelSet) interfac
 		}
 		switch {
 		case th.Node != nil:
-			return e.object("Node", th.Node, subs)
+			return e.object("Node", th.Node, subs, path)
 		case th.Leaf != nil:
-			return e.object("Leaf", th.Leaf, subs)
+			return e.object("Leaf", th.Leaf, subs, path)
 		}
 		return nil
 	}
